@@ -1,8 +1,65 @@
 import PromModel.Tsdb.WalFrame
 import PromModel.Suites.WalSuite
+import PromProofs.WalRoundtrip
+/-
+  C13 — The write-ahead log returns exactly the records written.
+  Property theorems only; the model is PromModel/Tsdb/WalFrame.lean, helper lemmas are in
+  PromProofs/WalFrame.lean and PromProofs/WalRoundtrip.lean.
+
+  All theorems are for every page size `ps` with `8 ≤ ps ≤ 65542` (a fragment length must fit the
+  16-bit length field: `ps - 7 ≤ 65535`; Go's constant is 32768), every number of pages per segment
+  `pps` (so every segment size `pps·ps`, including the degenerate `pps = 0`), every checksum function
+  `crc`, and every sequence of batches of records of any length (empty records, records larger than
+  a page or than a whole segment included).
+-/
 namespace Prom.C13
 open Prom.Wal
 
-theorem be16_len (n : Nat) : (be16 n).length = 2 := rfl
+/-- Admissible page sizes. -/
+def WF (ps : Nat) : Prop := 8 ≤ ps ∧ ps ≤ 65542
+
+example : WF 32768 := by unfold WF; omega
+example : WF 8 := by unfold WF; omega
+
+/-- **Round trip.** Reading the segment files left by `Log(batch₁) … Log(batchₙ); Close()` with the
+    `Reader` returns exactly the logged records, in order, and ends without an error having consumed
+    every byte. -/
+theorem wal_roundtrip (ps pps : Nat) (crc : Crc) (hps : WF ps) (batches : List (List Bytes)) :
+    readAll ps crc (segments ps (logAll ps pps crc batches)) =
+      (batches.flatten, .eof (segStream ps (segments ps (logAll ps pps crc batches))).length) := by
+  obtain ⟨sr, hseg, hsr, hrecs⟩ := (Inv.logAll pps hps.1 hps.2 batches (crc := crc)).segments
+  unfold readAll
+  rw [hseg, segStream_aligned sr hsr, (Reads.flatten sr hsr).rloop_eq, hrecs]
+
+/-- **Fragments never cross segments.** Every segment file is page aligned and is a complete log on
+    its own: read alone it yields whole records without error, and the per-segment record lists
+    concatenate to the logged sequence (no record is split between two files). -/
+theorem fragments_never_cross_segments (ps pps : Nat) (crc : Crc) (hps : WF ps)
+    (batches : List (List Bytes)) :
+    ∃ sr : List (Bytes × List Bytes),
+      segments ps (logAll ps pps crc batches) = sr.map Prod.fst ∧
+      (∀ p ∈ sr, p.1.length % ps = 0 ∧ readAll ps crc [p.1] = (p.2, .eof p.1.length)) ∧
+      (sr.map Prod.snd).flatten = batches.flatten := by
+  obtain ⟨sr, hseg, hsr, hrecs⟩ := (Inv.logAll pps hps.1 hps.2 batches (crc := crc)).segments
+  refine ⟨sr, hseg, ?_, hrecs⟩
+  intro p hp
+  have h := hsr p hp
+  refine ⟨h.end_mod, ?_⟩
+  unfold readAll segStream
+  simp only [List.map_cons, List.map_nil, List.flatten_cons, List.flatten_nil, List.append_nil,
+    segPad_aligned h.end_mod]
+  exact h.rloop_eq
+
+/-- The writer's fragment loop never runs out of the fuel the model gives it: the record is
+    returned whole (a consequence of `Reads.frag`, stated for the first fragment of a page). -/
+theorem frag_fuel_enough (ps : Nat) (crc : Crc) (hps : WF ps) (a : Nat) (ha : a + 7 ≤ ps) (rec : Bytes) :
+    ∃ a', rloop ps crc ⟨a, 0, [], 0⟩ (fragBytes ps crc (fragFuel rec) 0 a rec) =
+      ([rec], .eof (a + (fragBytes ps crc (fragFuel rec) 0 a rec).length)) ∧ a' + 7 ≤ ps := by
+  obtain ⟨a', ha', h⟩ := Reads.frag crc hps.1 hps.2 ha rec
+  obtain ⟨ty', hty', _, e⟩ := h a 0 [] (Nat.mod_eq_of_lt (by omega)) nonTorn_zero
+  refine ⟨a', ?_, ha'⟩
+  rw [List.append_nil] at e
+  rw [e, rloop_nil]
+  simp [prep, eofStatus_nonTorn hty']
 
 end Prom.C13
